@@ -183,12 +183,12 @@ def norm_out(out):
     return o
 
 
-def compare(want, got, preset_acac):
-    """-> None | (clause, what); `want` comes from TLC"""
+def compare(want, got, denied):
+    """-> None | (clause, what); `want` and `denied` (this is a denied preflight) come from TLC"""
     for f, clause in (('acao', 'P:acao'), ('acac', 'P:acac'), ('aceh', 'P:aceh'), ('acam', 'P:preflight'),
                       ('acah', 'P:preflight'), ('acma', 'P:preflight'), ('allow', 'P:allow')):
         if want[f] != got[f]:
-            if f == 'acac' and want['acac'] == 'true' and want['acao'] == '-' and not preset_acac:
+            if f == 'acac' and denied:
                 clause = 'D:leftover-credentials'
             return clause, '%s: expected %r, observed %r (all expected %r, all observed %r)' % (HDRS[f], want[f], got[f],
                                                                                               want, got)
@@ -280,12 +280,13 @@ def leg_a(ctx, dirs, table=None):
             for r, o in zip(rows, obs):
                 cells += 1
                 case = {'wiring': r['wiring'], 'cfg': r['cfg'], 'other': r['other'], 'guard': r['guard'], 'asgi': asgi,
-                        'sbs': app['sbs'], 'app': app, 'rq': r['rq'], 'beh': r['beh'], 'expected': norm_out(r['out'])}
+                        'sbs': app['sbs'], 'app': app, 'rq': r['rq'], 'beh': r['beh'], 'expected': norm_out(r['out']),
+                        'denied': r['denied']}
                 ctx.case(case, nontrivial=r['rq']['origin'] != '-', key=(key, asgi, digest([r['rq'], r['beh']])))
                 if o['problem']:
                     ctx.violation('P:exception', case, o['problem'])
                     continue
-                d = compare(case['expected'], o['extra'], r['beh'] in ('acac', 'presetall'))
+                d = compare(case['expected'], o['extra'], r['denied'])
                 if d:
                     case['observed'] = o['extra']
                     what = '%s %s Origin=%s acrm=%s beh=%s on %s app, %s %s, other=%s: %s' % (
@@ -441,7 +442,7 @@ def replay(ctx, case):
         o = c02.run_requests(b, [(rq['m'], c02.text(rq['p']))], [req_headers(rq, case['beh'])], project)[0]
         print('observed:', o['extra'])
         print('expected:', case['expected'])
-        d = compare(case['expected'], o['extra'], case['beh'] in ('acac', 'presetall'))
+        d = compare(case['expected'], o['extra'], case.get('denied', False))
         if d and not d[0].startswith('D:'):
             ctx.violation(d[0], case, d[1])
     finally:
